@@ -1,7 +1,7 @@
 ---------------------------- MODULE MC_Requests -----------------------------
 (* Scenario: every subset of optional parameters of every parameter-bearing   *)
 (* command, every subset of the optional members of each nested map.  C01.    *)
-EXTENDS Ctap, Gen
+EXTENDS Ctap, Gen, Lattice
 
 TopSubsets ==
     UNION {{SentCase(c, sv, "top-subset", F) : sv \in SubsetsOf(ReqMin(c), ReqOptVals(c, F))} : c \in ParamCommands}
@@ -30,12 +30,16 @@ SubCommands ==
 
 \* the platform's order of preference among the algorithms is part of the value
 ParamOrders ==
-    {SentCase(1, [McReqMin EXCEPT !.pubKeyCredParams = l], "param-order", F) :
+    {SentCase(1, [ReqFull(1, F) EXCEPT !.pubKeyCredParams = l], "param-order", F) :
         l \in {<<ParamOf(ALG_EdDSA), ParamOf(ALG_ES256)>>, <<ParamOf(ALG_ES256), ParamOf(ALG_EdDSA)>>,
                 <<ParamOf(-257), ParamOf(ALG_EdDSA), ParamOf(-37), ParamOf(ALG_ES256), ParamOf(ALG_ES256)>>,
                 <<ParamOf(ALG_EdDSA), ParamOf(ALG_EdDSA), ParamOf(ALG_ES256)>>, <<ParamOf(-257)>>}}
     \cup {SentCase(c, [ReqFull(c, F) EXCEPT !.attestationFormatsPreference = <<l>>], "format-order", F) :
         c \in {1, 2}, l \in {<<N_none, N_packed>>, <<N_packed, N_none>>, <<N_tpm, N_none, N_tpm, N_packed, N_none>>}}
 
-MC_Cases == TopSubsets \cup NestedSubsets \cup FullRequests \cup SubCommands \cup ParamOrders
+\* every member of every request (nested ones too), one at a time, over the lattice of its TYPE
+ValueLattice ==
+    UNION {{SentCase(c, sv, "value-lattice", F) : sv \in OneAtATime(CommandTable[c].schema, F, TRUE)} : c \in {1, 2, 6, 10, 12}}
+
+MC_Cases == TopSubsets \cup NestedSubsets \cup FullRequests \cup SubCommands \cup ParamOrders \cup ValueLattice
 =============================================================================
